@@ -733,7 +733,8 @@ def run(ck):
     for key, (kind, what, rep) in sorted(groups.items()):
         ck.violation(key, what, rep, kind == "viol")
     # text-level differences: tied to a failing call of the same law when there is one
-    for law, diffs in sorted(text_diffs.items()):
+    text_keys = set()
+    for law, diffs in sorted(text_diffs.items(), key=lambda kv: (kv[0] not in viol_by_law, kv[0])):
         itf, a, b = diffs[0]
         rep = {"law": law, "interface": itf, "model_skeleton_line": a, "emitted_skeleton_line": b,
                "all_differences": [list(x) for x in diffs[:10]],
@@ -741,6 +742,9 @@ def run(ck):
         wit = viol_by_law.get(law)
         line_kind = " ".join(a.split()[:2]) if not a.startswith("<") else " ".join(b.split()[:2])
         key = "text:%s:%s" % (GEN_SRC if itf == "generic" else C_SRC, re.sub(r"\d+", "N", line_kind))
+        if key in text_keys:
+            continue            # one report per kind of skeleton line (laws with a failing call first)
+        text_keys.add(key)
         if wit:
             rep["failing_call"] = wit
         ck.violation(key, "emitted contract skeleton of %s (%s interface) differs from the generator model: model `%s`, emitted `%s`" % (
